@@ -188,3 +188,88 @@ def check_wfx_spin_labels(ctx, rid):
         ctx.violate(rid, f"WFX spin types, {bad}", wowner, wfrag, construct=f"wfx spin labels: {bad}"[:180])
     else:
         ctx.ok(rid, f"WFX spin types: for {len(cases)} orbital sets (closed / open shell, fractional occupations never above 1, unrestricted) the labels written are read back as the same kind and counts", f"{do.module.relpath}:{wfrag.lineno}")
+
+
+def _num(a):
+    """Numeric array from a result that may hold constant Sym entries."""
+    from ..symarr import Sym
+
+    arr = np.asarray(a, dtype=object)
+    out = np.empty(arr.shape, dtype=float)
+    for idx in np.ndindex(*arr.shape):
+        x = arr[idx]
+        if isinstance(x, Sym):
+            if any(m != () for m in x.terms):
+                raise NotSymbolic("symbolic value where a number is expected")
+            x = x.terms.get((), 0)
+        out[idx] = float(x)
+    return out
+
+
+def check_molekel_mo_blocks(ctx, rid):
+    """Molekel `$COEFF_*` / `$OCC_*` blocks: what the writer helpers emit for the alpha and the beta orbitals is read
+    back by the reader helpers as the same irreps, energies, occupations and coefficient columns.
+
+    Evaluated for unrestricted orbitals with 7 alpha and 3 beta orbitals (blocks of five are crossed; the two counts
+    differ, so a slice taken at the wrong count shows) over two basis functions, with a non-trivial permutation / sign
+    pair standing for convert_conventions."""
+    prog = ctx.prog
+    mod = prog.module("iodata.formats.molekel")
+    need = {n: prog.funcs.get(f"{mod.name}.{n}") for n in ("_dump_helper_coeffs", "_dump_helper_occ", "_load_helper_coeffs", "_load_helper_occ")}
+    if any(v is None for v in need.values()):
+        raise AnalysisError(f"molekel: helper(s) {[k for k, v in need.items() if v is None]} not found")
+    mo_cls = prog.cls("iodata.orbitals.MolecularOrbitals")
+    iocls = prog.cls("iodata.iodata.IOData")
+    licls = prog.cls("iodata.utils.LineIterator")
+    na, nb, nbasis = 7, 3, 2
+    n = na + nb
+    coeffs = np.array([[1.0 + 0.5 * j + 0.25 * i for j in range(n)] for i in range(nbasis)])
+    energies = np.array([-5.0 + 0.75 * j for j in range(n)])
+    occs = np.array([1.0 if j % 2 == 0 else 0.5 for j in range(n)])
+    irreps = [f"i{j}" for j in range(n)]
+    mo = Rec(mo_cls, kind="unrestricted", norba=na, norbb=nb, occs=occs, coeffs=coeffs, energies=energies, irreps=irreps, occs_aminusb=None)
+    data = Rec(iocls, mo=mo, obasis=Rec(None))
+    perm, signs = np.array([1, 0]), np.array([1.0, -1.0])
+    stubs = {"iodata.convert.convert_conventions": lambda args, kw: (perm, signs)}
+    bad = None
+    try:
+        for spin, sl in (("a", slice(0, na)), ("b", slice(na, n))):
+            sink = TextSink()
+            ev = AccessorEval(prog, mo_cls, limit=8000)
+            ev.stubs = stubs
+            ev.run_free(need["_dump_helper_coeffs"], [sink, data], {"spin": spin})
+            lines = [ln + "\n" for ln in sink.text.split("\n") if ln.strip() != ""]
+            lit = Rec(licls, filename="F", fh=iter(lines), lineno=0, stack=[])
+            try:
+                back = AccessorEval(prog, licls, limit=20000).run_free(need["_load_helper_coeffs"], [lit, nbasis], {})
+            except Raised as exc:
+                bad = f"spin {spin}: the block written for {sl.stop - sl.start} orbitals makes the reader raise {exc.args[0]} (first lines: {[ln.strip()[:40] for ln in lines[:2]]})"
+                break
+            c_back, e_back, i_back = back
+            want_c = (coeffs[:, sl][perm]) * signs.reshape(-1, 1)
+            if list(i_back) != irreps[sl]:
+                bad = f"spin {spin}: irreps written for orbitals {irreps[sl]} come back as {list(i_back)}"
+            elif _num(e_back).shape != energies[sl].shape or np.abs(_num(e_back) - energies[sl]).max() > 1e-9:
+                bad = f"spin {spin}: orbital energies {energies[sl].tolist()} come back as {_num(e_back).tolist()}"
+            elif _num(c_back).shape != want_c.shape or np.abs(_num(c_back) - want_c).max() > 1e-9:
+                bad = f"spin {spin}: the coefficient block (rows permuted and sign-scaled) does not come back: shape {np.asarray(c_back).shape}, expected {want_c.shape}" if np.asarray(c_back).shape != want_c.shape else f"spin {spin}: coefficient columns come back attached to other orbitals / basis functions"
+            if bad:
+                break
+            sink = TextSink()
+            ev = AccessorEval(prog, mo_cls, limit=8000)
+            ev.run_free(need["_dump_helper_occ"], [sink, data], {"spin": spin})
+            lines = [ln + "\n" for ln in sink.text.split("\n") if ln.strip() != ""]
+            lit = Rec(licls, filename="F", fh=iter(lines), lineno=0, stack=[])
+            o_back = _num(AccessorEval(prog, licls, limit=8000).run_free(need["_load_helper_occ"], [lit], {}))
+            if o_back.shape != occs[sl].shape or np.abs(o_back - occs[sl]).max() > 1e-6:
+                bad = f"spin {spin}: occupations {occs[sl].tolist()} come back as {o_back.tolist()}"
+                break
+    except Raised as exc:
+        bad = f"evaluation raises {exc.args[0]}"
+    except NotSymbolic as exc:
+        raise AnalysisError(f"molekel MO block helpers are outside the evaluation whitelist: {exc}") from exc
+    w = need["_dump_helper_coeffs"]
+    if bad:
+        ctx.violate(rid, f"Molekel orbital blocks, {bad}", w, w.node, construct=f"molekel MO blocks: {bad}"[:180])
+    else:
+        ctx.ok(rid, "Molekel $COEFF / $OCC blocks: irreps, energies, occupations and coefficient columns of 7 alpha + 3 beta orbitals come back in their own slots", f"{w.module.relpath}:{w.lineno}")
